@@ -14,7 +14,7 @@ import gen
 import vlib
 from vlib import Report, ToolError, cached, cargo_build_or_die, log, mkscratch, rmtree
 
-DEPS = ["spec/Grammar.tla", "spec/CanonLR.tla", "spec/Sem.tla", "spec/SemVal.tla", "spec/Cfg.tla", "spec/MCEval.cfg", "spec/LRMachine.tla", "spec/MCRun.cfg", "tools/core.py", "tools/eng_core.py",
+DEPS = ["spec/Grammar.tla", "spec/CanonLR.tla", "spec/Sem.tla", "spec/SemVal.tla", "spec/Cfg.tla", "spec/Prec.tla", "spec/MCEval.cfg", "spec/LRMachine.tla", "spec/MCRun.cfg", "tools/core.py", "tools/eng_core.py",
         "tools/c_core.py", "tools/gen.py", "tools/lp.py", "tools/vlib.py", "harness/crates/runner", "harness/crates/lpdrv",
         "harness/Cargo.toml", "harness/.cargo"]
 PROPS = ["C01", "C02", "C04", "C05", "C06", "C07", "C08", "C16", "C17", "C19"]
@@ -44,6 +44,8 @@ def population(tier, seed):
 
 
 def bound_for(cg, tier):
+    if cg.get("bound"):
+        return cg["bound"][0 if tier == "quick" else 1]
     t = len(cg["ts"])
     if tier == "quick":
         return {1: 6, 2: 5, 3: 4, 4: 3}.get(t, 3)
